@@ -201,6 +201,27 @@ pub fn gen_jitter_spec(rng: &mut Prng, prop: &str, allowed: &[CF], c16_bias: boo
         spec.ops.insert(0, Op::U64);
         spec.variant = "jitter_history_wrapping_second_difference".into();
     }
+    // long haul: tens of thousands of collections from ONE instance without a fresh next_u32 in
+    // between (counters / epochs kept per instance wrap at 2^8 or 2^16 collections), then the calls
+    // that depend on whether a half is pending
+    if spec.variant == "jitter_history" && rng.chance(1, 1500) {
+        let n = *rng.pick(&[255u32, 256, 257, 65_535, 65_535, 65_536, 65_537]);
+        let tail = rng.below(5) as u32;
+        let mut ops = Vec::new();
+        match rng.below(4) {
+            0 => ops.extend([Op::U32, Op::U32]),
+            1 => ops.push(Op::U32),
+            2 => ops.push(Op::Fork),
+            _ => {}
+        }
+        ops.push(Op::Fill(8 * n + tail));
+        ops.extend([Op::U32, Op::U64, Op::U32, Op::Fill(3)]);
+        spec.ops = ops;
+        spec.rounds = Some(1);
+        marks.clear();
+        clock.readings.truncate(64);
+        spec.variant = "jitter_history_long_haul".into();
+    }
     spec.clock = Some(clock);
     spec.aux = encode_marks(&marks);
     // the process's logging configuration: Trace level enabled in one run out of six
@@ -254,7 +275,12 @@ enum StepErr {
 /// candidates the model allows for one output call: (successor model, expected output)
 fn candidates(m: &JitterModel, op: &Op, max_extra: u64) -> Result<Vec<(JitterModel, Out)>, ()> {
     let run = |mut mm: JitterModel| -> Result<(JitterModel, Out), ()> {
-        let cap = mm.reads() + max_extra;
+        // a very long fill legitimately needs many readings: the stuck allowance is on top of them
+        let need = match op {
+            Op::Fill(n) if *n > 4096 => (*n as u64 / 8 + 1) * (1 + 3 * (mm.rounds as u64 + 1)),
+            _ => 0,
+        };
+        let cap = mm.reads() + max_extra + need;
         let out = match op {
             Op::U32 => Out::U32(mm.next_u32(cap).map_err(|_| ())?),
             Op::U64 => Out::U64(mm.next_u64(cap).map_err(|_| ())?),
